@@ -40,8 +40,12 @@ def solve(fml: Any, timeout_ms: int = 30_000) -> tuple[str, float, Any]:
     s = z3.Solver()
     s.set("timeout", timeout_ms)
     s.add(fml)
+    s.add(P.TZ_CONSTRAINTS)
     t0 = time.time()
     r = str(s.check())
+    TZ[0] = 0
+    if r == "sat":
+        TZ[0] = s.model().eval(P.TZOFF, model_completion=True).as_long()
     if os.environ.get("VERIF_DEBUG"):
         import sys
         print(f"[solve] {r} {time.time()-t0:.2f}s", file=sys.stderr, flush=True)
@@ -90,12 +94,32 @@ class Enc:
         return r
 
 
+TZ = [0]   # process time zone offset (seconds east) under which the real functions are replayed
+
+
+def posix_tz(off: int) -> str:
+    a = abs(off)
+    return "VRF" + ("-" if off > 0 else "+") + f"{a // 3600}:{a % 3600 // 60:02d}:{a % 60:02d}"
+
+
+def _in_zone(code: str, arg: Any) -> Any:
+    import subprocess
+    env = core.child_env({"TZ": posix_tz(TZ[0])})
+    p = subprocess.run([core.PY, "-c", "import sys,json,time;time.tzset();" + code, json.dumps(arg)], env=env,
+                       capture_output=True, text=True, timeout=120)
+    return json.loads(p.stdout.strip().splitlines()[-1])
+
+
 def real_to_pv(n: int) -> str:
+    if TZ[0]:
+        return _in_zone("from tel2puml.utils import unix_nano_to_pv_string as f;print(json.dumps(f(json.loads(sys.argv[1]))))", n)
     from tel2puml.utils import unix_nano_to_pv_string
     return unix_nano_to_pv_string(n)
 
 
 def real_to_ns(s: str) -> int:
+    if TZ[0]:
+        return _in_zone("from tel2puml.pv_to_tel import convert_timestamp_to_unix_nano as f;print(json.dumps(f(json.loads(sys.argv[1]))))", s)
     from tel2puml.pv_to_tel import convert_timestamp_to_unix_nano
     return convert_timestamp_to_unix_nano(s)
 
@@ -110,7 +134,7 @@ def run(tier: str) -> int:
         "monotonicity": "every pair n1 <= n2 of integer nanosecond values in the same range (not only multiples of 1000)",
     }
     chk.outside = ["instants before 1970 or after 2100 (first forward failure is at n >= 2**62, Feb 2116)",
-                   "time zones other than UTC; strftime directives other than %Y %m %d %H %M %S %f"]
+                   "DST transitions (the process time zone is modelled as an arbitrary FIXED offset, a multiple of 15 minutes within +-14 h)"]
     chk.assumptions = list(P.CONTRACTS) + [
         "z3 5.1 linear integer arithmetic",
         "the stdlib contracts above are validated on each run against CPython on boundary and seeded random instants",
@@ -142,7 +166,7 @@ def _fields_faithful(chk: core.Check, s: P.SPVStr, name: str) -> bool:
         chk.counterexample(
             name, "z3", secs, sig="format-drops-field",
             what=f"instants {a}us and {b}us are rendered as {sa!r} and {sb!r}: the string does not determine the instant",
-            replay={"kind": "to_pv_pair", "k": [a, b]}, reproduced=True)
+            replay={"tz": TZ[0], "kind": "to_pv_pair", "k": [a, b]}, reproduced=True)
         return False
     # the model was built on the over-approximation "an unmodelled directive shows nothing"; z3 has shown that the
     # format cannot be PROVED faithful - look for a real witness among day/hour boundaries of the whole range
@@ -158,7 +182,7 @@ def _fields_faithful(chk: core.Check, s: P.SPVStr, name: str) -> bool:
                     name, "z3+witness-search", secs + time.time() - t0, sig="format-not-faithful",
                     what=f"unix_nano_to_pv_string({1000*kv}) = {real_to_pv(1000*kv)!r}, the instant is {canonical(kv)!r} "
                          f"(format uses directives {P.UNKNOWN_DIRECTIVES or 'that drop a field'})",
-                    replay={"kind": "to_pv", "k": kv}, reproduced=True)
+                    replay={"tz": TZ[0], "kind": "to_pv", "k": kv}, reproduced=True)
                 return False
     chk.unknown(name, "z3", secs, f"format with unmodelled directives {P.UNKNOWN_DIRECTIVES} could not be proved faithful "
                 "and no concrete witness was found")
@@ -203,7 +227,7 @@ def _run(chk: core.Check, enc: Enc, tier: str) -> None:
             got = real_to_pv(1000 * kv)
             chk.counterexample(nm, "z3", secs, sig="forward-wrong-instant",
                                what=f"unix_nano_to_pv_string({1000*kv}) = {got!r}, expected {canonical(kv)!r}",
-                               replay={"kind": "to_pv", "k": kv}, reproduced=(got != canonical(kv)))
+                               replay={"tz": TZ[0], "kind": "to_pv", "k": kv}, reproduced=(got != canonical(kv)))
             fwd_ok = False
             break
         else:
@@ -212,6 +236,7 @@ def _run(chk: core.Check, enc: Enc, tier: str) -> None:
         pts = {klo, khi, (klo + khi) // 2} | {rng.randint(klo, khi) for _ in range(3 if tier == "quick" else 12)}
         twin_done = False
         sv = z3.Solver()
+        sv.add(P.TZOFF == 0)   # validation points are compared with the real function in this process (UTC)
         sv.add(z3.Or([z3.And(g, z3.Int("out") == t) for g, t, _, _ in cases]))
         for kv in sorted(pts):
             sv.push()
@@ -274,7 +299,7 @@ def _run(chk: core.Check, enc: Enc, tier: str) -> None:
                     sa, sb = real_to_pv(a), real_to_pv(b)
                     chk.counterexample(nm, "z3", secs, sig="order-not-preserved",
                                        what=f"{a} <= {b} ns but {sa!r} > {sb!r}",
-                                       replay={"kind": "order", "n": [a, b]}, reproduced=(sa > sb))
+                                       replay={"tz": TZ[0], "kind": "order", "n": [a, b]}, reproduced=(sa > sb))
                     break
                 else:
                     chk.unknown(nm, "z3", secs, f"solver answered {r}")
@@ -307,7 +332,7 @@ def _run(chk: core.Check, enc: Enc, tier: str) -> None:
             got = real_to_ns(canonical(kv))
             chk.counterexample(nm, "z3", secs, sig="backward-wrong-instant",
                                what=f"convert_timestamp_to_unix_nano({canonical(kv)!r}) = {got}, expected {1000*kv}",
-                               replay={"kind": "to_ns", "k": kv}, reproduced=(got != 1000 * kv))
+                               replay={"tz": TZ[0], "kind": "to_ns", "k": kv}, reproduced=(got != 1000 * kv))
             back_ok = False
             chk.extra["c_backward_note"] = "stopped at the first counterexample; remaining binades not queried"
             break
@@ -316,6 +341,7 @@ def _run(chk: core.Check, enc: Enc, tier: str) -> None:
         twin_done = False
         # translator validation for the backward direction
         sv = z3.Solver()
+        sv.add(P.TZOFF == 0)
         sv.add(z3.Or([z3.And(g, z3.Int("out") == t) for g, t, _, _ in ns.cases]))
         pts = {klo, khi} | {rng.randint(klo, khi) for _ in range(3 if tier == "quick" else 12)}
         for kv in sorted(pts):
@@ -347,7 +373,7 @@ def _run(chk: core.Check, enc: Enc, tier: str) -> None:
                 got = real_to_pv(real_to_ns(canonical(kv)))
                 chk.counterexample(nm, "z3", secs, sig="roundtrip-changes-timestamp",
                                    what=f"PV->OTel->PV maps {canonical(kv)!r} to {got!r}",
-                                   replay={"kind": "roundtrip", "k": kv}, reproduced=(got != canonical(kv)))
+                                   replay={"tz": TZ[0], "kind": "roundtrip", "k": kv}, reproduced=(got != canonical(kv)))
             else:
                 chk.unknown(nm, "z3", secs, f"solver answered {r} / layout preserved: {shape_ok}")
     chk.samples.append({"query": "c.backward", "meaning": "exists k in binade: to_ns(PV string of k) != 1000k (unsat expected)"})
@@ -414,6 +440,7 @@ def _small_format_crosscheck(chk: core.Check) -> None:
 def replay_file(path: str) -> int:
     rec = json.load(open(path))["replay"]
     kind = rec["kind"]
+    TZ[0] = int(rec.get("tz", 0))
     if kind == "to_pv":
         kv = rec["k"]; got = real_to_pv(1000 * kv); print(got, canonical(kv)); return int(got != canonical(kv))
     if kind == "to_ns":
